@@ -299,6 +299,10 @@ CORPUS = [
     ("replace", [_d(["usr"]), _d(["usr", "lib64"]), _s(["usr", "lib"], "lib64"), _f(["usr", "lib64", "foo"], "6f6c64")],
      [_e(["usr"], "dir"), _e(["usr", "lib"], "dir"), _e(["usr", "lib", "foo"], "reg")],
      [_e(["usr"], "dir"), _e(["usr", "lib64"], "dir"), _e(["usr", "lib64", "foo"], "reg")]),
+    # a link to '.' : opt/lib/lib is the link opt/lib itself under another name
+    ("replace", [_d(["opt"]), _s(["opt", "lib"], ".")],
+     [_e(["opt"], "dir"), _e(["opt", "lib"], "dir"), _e(["opt", "lib", "lib"], "sym", target="x")],
+     [_e(["opt"], "dir"), _e(["opt", "lib"], "dir"), _e(["opt", "lib", "f"], "reg")]),
 ]
 
 
